@@ -5,6 +5,9 @@
  *
  *   f <hexpat> <hexline> <flags>      flags = RE_ICASE(1) | RE_NOTBOL(2) | RE_NOTEOL(4)
  *     -> path=<s|g|x> rstr=<rc>:<so>,<eo>:<so1>,<eo1>:<so2>,<eo2> rset=<rc>:... cut=<n>
+ *   fn <hexpat> <hexline> <flags> <n>   the same with group count n (0..3) instead of 3; all 6 cells of the
+ *     group array are printed whatever the result (-7 = the cell was not written)
+ *     -> path=<s|g|x> rstr=<rc>:<c0>,...,<c5> rset=<rc>:<c0>,...,<c5> cut=<n>
  *   sw <hexpat> <maxlen> <hexchar,hexchar,...>
  *     -> path=<s|g|x> R=<2 chars per case> E=<2 chars per case>
  *        cases: icase 0..1, notbol 0..1, noteol 0..1, lines = all strings of 0..maxlen alphabet
@@ -70,6 +73,51 @@ static void do_find(char *hpat, char *hline, int flags)
 		rc = rset_find(set, line, NG, g, flags & (RE_NOTBOL | RE_NOTEOL));
 		cut = CUT_GET();
 		grps_print(rc, g);
+	} else {
+		printf("x");
+	}
+	printf(" cut=%d\n", cut);
+	if (rs)
+		rstr_free(rs);
+	if (set)
+		rset_free(set);
+	free(pat);
+	free(line);
+}
+
+static void cells_print(int rc, int *g)
+{
+	int i;
+	printf("%d:", rc < 0 ? -1 : 0);
+	for (i = 0; i < NG * 2; i++)
+		printf("%s%d", i ? "," : "", g[i]);
+}
+
+static void do_find_n(char *hpat, char *hline, int flags, int n)
+{
+	int plen, llen, rc, cut = 0;
+	char *pat = pu_unhex(hpat, &plen, 0, 0);
+	char *line = pu_unhex(hline, &llen, 0, 0);
+	int g[NG * 2];
+	struct rstr *rs = rstr_make(pat, flags & RE_ICASE);
+	struct rset *set = rset_make(1, &pat, flags & RE_ICASE);
+	if (n < 0 || n > NG)
+		n = NG;
+	printf("path=%c rstr=", !rs ? 'x' : rs->rs ? 'g' : 's');
+	if (rs) {
+		grps_init(g);
+		rc = rstr_find(rs, line, n, g, flags & (RE_NOTBOL | RE_NOTEOL));
+		cells_print(rc, g);
+	} else {
+		printf("x");
+	}
+	printf(" rset=");
+	if (set) {
+		grps_init(g);
+		CUT_RESET();
+		rc = rset_find(set, line, n, g, flags & (RE_NOTBOL | RE_NOTEOL));
+		cut = CUT_GET();
+		cells_print(rc, g);
 	} else {
 		printf("x");
 	}
@@ -219,6 +267,8 @@ int main(void)
 		int n = pu_words(l, w, 8);
 		if (n == 4 && !strcmp(w[0], "f"))
 			do_find(w[1], w[2], atoi(w[3]));
+		else if (n == 5 && !strcmp(w[0], "fn"))
+			do_find_n(w[1], w[2], atoi(w[3]), atoi(w[4]));
 		else if (n == 4 && !strcmp(w[0], "tb"))
 			do_table(w[1], atoi(w[2]), w[3]);
 		else if (n == 4 && !strcmp(w[0], "sw"))
